@@ -7,6 +7,7 @@ mod engine;
 mod oracles;
 mod providers;
 mod reference;
+mod stateq;
 mod stores;
 mod world;
 
